@@ -24,7 +24,11 @@ struct Observed {
 }
 
 fn observe(req: &Req, steps: Vec<Step>) -> Result<Observed, String> {
-    let out = ENV.with(|env| run_req(env, req, Some(steps), false))?;
+    observe_hint(req, steps, true)
+}
+
+fn observe_hint(req: &Req, steps: Vec<Step>, with_size_hint: bool) -> Result<Observed, String> {
+    let out = ENV.with(|env| crate::props::authenv::run_req_hint(env, req, Some(steps), false, with_size_hint))?;
     if let Some(e) = out.transport_error {
         return Err(format!("transport error: {e}"));
     }
@@ -175,7 +179,10 @@ fn compare(c: &mut Case<'_>, s: &Subject, cuts: &[usize], pendings: &[usize]) ->
     let body = &s.req.body;
     let base = observe(&s.req, vec![Step::Data(Bytes::copy_from_slice(body))]).map_err(|e| c.fail("transport-error", e))?;
     let steps = schedule(body, cuts, pendings);
-    let got = observe(&s.req, steps).map_err(|e| c.fail("transport-error", e))?;
+    // (half of the framed runs come over a transport that does not announce the body's length)
+    let with_hint = c.t.bool();
+    c.label(if with_hint { "size-hint:exact" } else { "size-hint:none" });
+    let got = observe_hint(&s.req, steps, with_hint).map_err(|e| c.fail("transport-error", e))?;
     let classes = cut_classes(s.kind, body, cuts);
     let n_pending: usize = pendings.iter().sum();
     c.label(format!("kind:{}", s.kind));
